@@ -135,3 +135,6 @@ package cty
 //@ func (cty.Value).RefineWith
 //@   trusted
 //@   ensures (and (= (vty result) (vty v)) (= (marks_of result) (marks_of v)) (wf_marks result))
+//@   ensures (=> (wf_deep v) (wf_deep result))
+//@   ensures (=> (is_known v) (= result v))
+//@   ensures (=> (and (not (is_known v)) (= (Slice.len refiners) 1) (rf_numeric (select (select F.Arr<Func> (Slice.ptr refiners)) (Slice.off refiners)))) (not (and (is_known result) (is_null result))))
